@@ -115,9 +115,29 @@ RangeTextOK0(e, a) ==
   LET sr == StatedRange(e.msg) IN
   ~sr.has \/ \E p \in Params(e) : ~Within(e[p], sr) /\ HullWithin(AcceptedHull(e, a, p), sr)
 
+\* A DateTime setter can also be refused although its argument is acceptable for the field: the edited local
+\* reading denotes an instant outside the supported range (first / last day with an offset).  The quantity the
+\* message may then state a range for is that instant, in nanoseconds since 0001-01-01T00:00:00Z.
+SetterLocal(e, a) ==
+  LET l == LocalOf(InstOf(a), a.off) IN
+  IF ~l.ok \/ ~IsSmall(e.v) THEN [ok |-> FALSE]
+  ELSE LET v == Small(e.v) IN
+       IF e.f \in DateFields
+       THEN (LET r == DateFieldSet(l.dn, e.f, v) IN
+             IF r.ok THEN [ok |-> TRUE, dn |-> r.dn, sod |-> l.sod, ns |-> l.ns] ELSE [ok |-> FALSE])
+       ELSE IF v < 0 \/ v > ClockMax(e.f) THEN [ok |-> FALSE]
+       ELSE LET c == SetClock(l.sod, l.ns, e.f, v) IN [ok |-> TRUE, dn |-> l.dn, sod |-> c[1], ns |-> c[2]]
+NanosOf(dn, sod, ns) == Add(MulSeq(Add(MulSmall(FromInt(dn), SPD), FromInt(sod)), <<R[4], R[5], R[6]>>, 1), FromInt(ns))
+InstantHull == Hull(NanosOf(MinDn, 0, 0), Sub(NanosOf(MaxDn, SPD, 0), FromInt(1)))
+ResultTextOK(e, a, sl) ==
+  LET sr == StatedRange(e.msg) IN
+  ~sr.has \/ (~Within(NanosOf(sl.dn, sl.sod - a.off, sl.ns), sr) /\ HullWithin(InstantHull, sr))
+
 \* the clause: a stated range contains all accepted values of some argument and excludes its rejected value
 RangeTextOK(e, a) ==
-  IF e.op \in {"dt_set", "date_set"} /\ e.f \in {"year", "month", "day"}
+  IF e.op = "dt_set" /\ SetterLocal(e, a).ok
+  THEN ResultTextOK(e, a, SetterLocal(e, a))
+  ELSE IF e.op \in {"dt_set", "date_set"} /\ e.f \in {"year", "month", "day"}
   THEN RangeTextOK0(AsYmdCall(e, a), a)
   ELSE RangeTextOK0(e, a)
 =============================================================================
